@@ -1606,6 +1606,10 @@ class Interp(object):
           return True
         if isinstance(base, ast.Attribute) and base.attr in ("log", "_log", "logger"):
           return True
+        # logging.getLogger("x").info(...)
+        if isinstance(base, ast.Call) and isinstance(base.func, ast.Attribute) and base.func.attr == "getLogger" \
+           and isinstance(base.func.value, ast.Name) and base.func.value.id == "logging":
+          return True
         if f.attr in ("msg", "err") :
           return True
       if f.attr == "print_exc" and isinstance(f.value, ast.Name) and f.value.id == "traceback":
